@@ -2592,11 +2592,10 @@ impl Server {
         // Extract min score
         let min_score = match &parts[2] {
             RespFrame::BulkString(Some(bytes)) => {
+                // (NaN parses as a float but is not a bound)
                 match String::from_utf8_lossy(bytes).parse::<f64>() {
-                    Ok(n)
-
- => n,
-                    Err(_) => return Ok(RespFrame::error("ERR min or max is not a float")),
+                    Ok(n) if !n.is_nan() => n,
+                    _ => return Ok(RespFrame::error("ERR min or max is not a float")),
                 }
             }
             _ => return Ok(RespFrame::error("ERR invalid min score format")),
@@ -2606,8 +2605,8 @@ impl Server {
         let max_score = match &parts[3] {
             RespFrame::BulkString(Some(bytes)) => {
                 match String::from_utf8_lossy(bytes).parse::<f64>() {
-                    Ok(n) => n,
-                    Err(_) => return Ok(RespFrame::error("ERR min or max is not a float")),
+                    Ok(n) if !n.is_nan() => n,
+                    _ => return Ok(RespFrame::error("ERR min or max is not a float")),
                 }
             }
             _ => return Ok(RespFrame::error("ERR invalid max score format")),
